@@ -717,7 +717,14 @@ def instantiateCFF2(
     allCommandPrivates = []
     for cs in charStrings:
         assert cs.private.vstore.otVarStore is varStore  # Or in many places!!
-        commands = programToCommands(cs.program, getNumRegions=getNumRegions)
+        # a charstring without a vsindex operator uses its Private DICT's vsindex
+        defaultVsindex = getattr(cs.private, "vsindex", 0)
+        commands = programToCommands(
+            cs.program,
+            getNumRegions=lambda vsindex, default=defaultVsindex: getNumRegions(
+                default if vsindex is None else vsindex
+            ),
+        )
         if generalize:
             commands = generalizeCommands(commands)
         if specialize:
